@@ -38,6 +38,10 @@ def run(v):
     bcov = run_cmdline_property(v, D.battery_family(SEED + 9, 16 if q else 64, maxlen=3 if q else 4, budget=3000 if q else 30000),
                                 "MC_CmdLine_design.cfg", signature=cmdline_sig.signature, name="C01b")
     cov = merge_cov(cov, bcov, "batteries")
+    # spellings at the edges: empty attached values, several short names per item inside bundles, values that are not text
+    ecov = run_cmdline_property(v, D.edge_family(SEED + 10, 18 if q else 54, maxlen=2 if q else 3),
+                                "MC_CmdLine_design.cfg", signature=cmdline_sig.signature, name="C01e")
+    cov = merge_cov(cov, ecov, "edges")
     cov["rule"] = ("every line over each definition's alphabet up to its maxlen, enumerated by TLC; non-trivial = "
                    "non-empty line inside the property's quantifier; driver lines are generated sentences and their mutations")
     cov["exhaustive"] = True
